@@ -253,6 +253,22 @@ func (e *Engine) checkC16Reload(st *Step, m *CfgMeta, accepted bool) {
 	for path, pq := range pre.Queues {
 		q := post.Queues[path]
 		if q == nil {
+			// the production queue cleaner of the partition manager runs on its own 10 s timer next to the hook: a queue it
+			// may remove at any moment (empty with an empty removable subtree, and unmanaged or already draining) can vanish during any step of a case that
+			// lasts longer than that on a loaded machine. That is legitimate and indistinguishable here: observed, not judged.
+			removable := true
+			for p2, q2 := range pre.Queues {
+				// the queue itself and everything below it (the cleaner removes children first, then the parent, in one pass)
+				if p2 == path || strings.HasPrefix(p2, path+".") {
+					if len(q2.Apps) != 0 || !q2.Allocated.IsZero() || !q2.Pending.IsZero() || (q2.Managed && q2.State != "Draining") {
+						removable = false
+					}
+				}
+			}
+			if removable {
+				e.obs("c16.removable_queue_gone_during_reload", 1)
+				continue
+			}
 			e.violate("C16", "reload-removed-queue", "", fmt.Sprintf("queue %s disappeared in the reload itself (queues are only removed by the cleaner once empty)", path))
 			continue
 		}
